@@ -161,6 +161,208 @@ let run_eng_script orig oc (name, lines) =
     lines;
   Printf.fprintf oc "---\n"
 
+
+(* ---------- FRP scripts against the denotational spec (Spec/Sodium.v) ---------- *)
+let rec pos_of_int n = if n <= 1 then XH else if n land 1 = 0 then XO (pos_of_int (n lsr 1)) else XI (pos_of_int (n lsr 1))
+let z_of_int n = if n = 0 then Z0 else if n > 0 then Zpos (pos_of_int n) else Zneg (pos_of_int (-n))
+let rec int_of_pos = function XH -> 1 | XO p -> 2 * int_of_pos p | XI p -> 2 * int_of_pos p + 1
+let int_of_z = function Z0 -> 0 | Zpos p -> int_of_pos p | Zneg p -> - (int_of_pos p)
+let nat s = nat_of_int (int_of_string s)
+let zz s = z_of_int (int_of_string s)
+
+let rec string_of_val = function
+  | VInt z -> string_of_int (int_of_z z)
+  | VPair (a, b) -> "(" ^ string_of_val a ^ "," ^ string_of_val b ^ ")"
+  | VList l -> "[" ^ String.concat ";" (List.map string_of_val l) ^ "]"
+  | VNone -> "none"
+  | VSome v -> "some(" ^ string_of_val v ^ ")"
+  | VUnit -> "unit"
+  | VRef h -> "@" ^ string_of_int (int_of_nat h / 8)
+
+let parse_val s =
+  match String.split_on_char ':' s with
+  | ["none"] -> VNone
+  | ["unit"] -> VUnit
+  | ["some"; x] -> VSome (VInt (zz x))
+  | ["pair"; x] -> (match String.split_on_char ',' x with [a; b] -> VPair (VInt (zz a), VInt (zz b)) | _ -> failwith "pair")
+  | ["list"] -> VList []
+  | ["list"; x] -> VList (List.map (fun a -> VInt (zz a)) (String.split_on_char ',' x))
+  | [x] -> VInt (zz x)
+  | _ -> failwith ("bad value " ^ s)
+
+(* slots: script object slot h <-> spec id 8*h (+ internal offsets); aliases through clone *)
+type env = { mutable alias : (int * int) list; mutable csinks : int list }
+let sid env h = try List.assoc h env.alias with Not_found -> 8 * h
+let obj env s = nat_of_int (sid env (int_of_string s))
+
+let parse_f1 env s =
+  match String.split_on_char ':' s with
+  | ["add"; k] -> FAdd (zz k) | ["mul"; k] -> FMul (zz k) | ["const"; k] -> FConst (VInt (zz k))
+  | ["id"] -> FId | ["pairself"] -> FPairSelf | ["fst"] -> FFst | ["snd"] -> FSnd
+  | ["someifeven"] -> FSomeIfEven | ["unsome"] -> FUnsome | ["tolist"; k] -> FToList (nat k)
+  | ["sel"; hs] -> FSel (List.map (fun h -> obj env h) (String.split_on_char ',' hs))
+  | _ -> failwith ("bad f1 " ^ s)
+let parse_p s =
+  match String.split_on_char ':' s with
+  | ["even"] -> PEven | ["gt"; k] -> PGt (zz k) | ["lt"; k] -> PLt (zz k)
+  | ["true"] -> PTrue | ["false"] -> PFalse | ["issome"] -> PIsSome
+  | _ -> failwith ("bad pred " ^ s)
+let parse_f2 = function
+  | "add" -> GAdd | "sub" -> GSub | "mul10" -> GMul10 | "left" -> GLeft | "right" -> GRight | "pair" -> GPair
+  | s -> failwith ("bad f2 " ^ s)
+let parse_fn = function
+  | "wsum" -> NWsum | "first" -> NFirst | "last" -> NLast | "tuple" -> NTuple
+  | s -> failwith ("bad fn " ^ s)
+let parse_sel s =
+  match String.split_on_char ':' s with
+  | ["mod"; k] -> SMod (zz k) | ["dup"; k] -> SDup (zz k) | ["multi"] -> SMulti
+  | _ -> failwith ("bad sel " ^ s)
+
+(* one script line -> spec operations *)
+let ops_of_line env line : op list =
+  let w = split_ws line in
+  let n8 h j = nat_of_int (8 * int_of_string h + j) in
+  let fresh h = env.alias <- List.remove_assoc (int_of_string h) env.alias in
+  match w with
+  | ["sink"; h] -> fresh h; [ODef (n8 h 0, DSink None)]
+  | ["sink_co"; h; f] -> fresh h; [ODef (n8 h 0, DSink (Some (parse_f2 f)))]
+  | ["csink"; h; v] -> fresh h; env.csinks <- int_of_string h :: env.csinks;
+    [ODef (n8 h 1, DSink None); OHold (n8 h 0, n8 h 1, parse_val v)]
+  | ["const"; h; v] -> fresh h; [OConst (n8 h 0, parse_val v)]
+  | ["never"; h] -> fresh h; [ODef (n8 h 0, DNever)]
+  | ["map"; h; s; f] -> let d = DMap (obj env s, parse_f1 env f) in fresh h; [ODef (n8 h 0, d)]
+  | ["map_to"; h; s; v] -> let d = DMap (obj env s, FConst (parse_val v)) in fresh h; [ODef (n8 h 0, d)]
+  | ["filter"; h; s; p] -> let d = DFilter (obj env s, parse_p p) in fresh h; [ODef (n8 h 0, d)]
+  | ["filter_opt"; h; s] -> let a = obj env s in fresh h;
+    [ODef (n8 h 1, DFilter (a, PIsSome)); ODef (n8 h 0, DMap (n8 h 1, FUnsome))]
+  | ["merge"; h; a; b; f] -> let d = DMerge (obj env a, obj env b, parse_f2 f) in fresh h; [ODef (n8 h 0, d)]
+  | ["or_else"; h; a; b] -> let d = DMerge (obj env a, obj env b, GLeft) in fresh h; [ODef (n8 h 0, d)]
+  | "snapshot" :: h :: s :: f :: cs -> let d = DSnapshot (obj env s, List.map (obj env) cs, parse_fn f) in fresh h; [ODef (n8 h 0, d)]
+  | ["snapshot1"; h; s; c] -> let d = DSnapshot (obj env s, [obj env c], NLast) in fresh h; [ODef (n8 h 0, d)]
+  | ["gate"; h; s; c] -> let d = DGate (obj env s, obj env c) in fresh h; [ODef (n8 h 0, d)]
+  | ["once"; h; s] -> let d = DOnce (obj env s) in fresh h; [ODef (n8 h 0, d)]
+  | ["hold"; h; s; v] -> let a = obj env s in fresh h; [OHold (n8 h 0, a, parse_val v)]
+  | ["hold_lazy"; h; s; z] -> let a = obj env s in fresh h; [OHoldLazy (n8 h 0, a, nat z)]
+  | ["updates"; h; c] -> let d = DUpdates (obj env c) in fresh h; [ODef (n8 h 0, d)]
+  | ["value"; h; c] -> let d = DValue (obj env c) in fresh h; [ODef (n8 h 0, d)]
+  | ["map_c"; h; c; f] -> let d = DMapC (obj env c, parse_f1 env f) in fresh h; [ODef (n8 h 0, d)]
+  | "lift" :: h :: f :: cs -> let d = DLift (List.map (obj env) cs, parse_fn f) in fresh h; [ODef (n8 h 0, d)]
+  | ["accum"; h; s; v; f] -> let a = obj env s in fresh h;
+    [ODef (n8 h 1, DSLoop); OHold (n8 h 0, n8 h 1, parse_val v);
+     ODef (n8 h 2, DSnapshot (a, [n8 h 0], NF2 (parse_f2 f))); OLoopS (n8 h 1, n8 h 2)]
+  | ["accum_lazy"; h; s; z; f] -> let a = obj env s in fresh h;
+    [ODef (n8 h 1, DSLoop); OHoldLazy (n8 h 0, n8 h 1, nat z);
+     ODef (n8 h 2, DSnapshot (a, [n8 h 0], NF2 (parse_f2 f))); OLoopS (n8 h 1, n8 h 2)]
+  | ["collect"; h; s; v; fa; fb] -> let a = obj env s in fresh h;
+    [ODef (n8 h 1, DSLoop); OHold (n8 h 4, n8 h 1, parse_val v);
+     ODef (n8 h 2, DSnapshot (a, [n8 h 4], NPairF2 (parse_f2 fa, parse_f2 fb)));
+     ODef (n8 h 0, DMap (n8 h 2, FFst)); ODef (n8 h 3, DMap (n8 h 2, FSnd)); OLoopS (n8 h 1, n8 h 3)]
+  | ["collect_lazy"; h; s; z; fa; fb] -> let a = obj env s in fresh h;
+    [ODef (n8 h 1, DSLoop); OHoldLazy (n8 h 4, n8 h 1, nat z);
+     ODef (n8 h 2, DSnapshot (a, [n8 h 4], NPairF2 (parse_f2 fa, parse_f2 fb)));
+     ODef (n8 h 0, DMap (n8 h 2, FFst)); ODef (n8 h 3, DMap (n8 h 2, FSnd)); OLoopS (n8 h 1, n8 h 3)]
+  | ["switch_s"; h; c] -> let d = DSwitchS (obj env c) in fresh h; [ODef (n8 h 0, d)]
+  | ["switch_c"; h; c] -> let d = DSwitchC (obj env c) in fresh h; [ODef (n8 h 0, d)]
+  | ["sloop"; h] -> fresh h; [ODef (n8 h 0, DSLoop)]
+  | ["sloop_close"; h; s] -> [OLoopS (obj env h, obj env s)]
+  | ["cloop"; h] -> fresh h; [ODef (n8 h 0, DCLoop)]
+  | ["cloop_close"; h; c] -> [OLoopC (obj env h, obj env c)]
+  | ["defer"; h; s] -> let d = DDefer (obj env s) in fresh h; [ODef (n8 h 0, d)]
+  | ["split"; h; s] -> let d = DSplit (obj env s) in fresh h; [ODef (n8 h 0, d)]
+  | ["router"; r; s; sl] -> let d = DRouter (obj env s, parse_sel sl) in fresh r; [ODef (n8 r 0, d)]
+  | ["route"; h; r; k] -> let d = DRoute (obj env r, zz k) in fresh h; [ODef (n8 h 0, d)]
+  | ["listen"; l; s] | ["listen_weak"; l; s] -> [OListen (nat l, obj env s)]
+  | ["listen_c"; l; c] -> [OListenC (nat l, nat_of_int (8 * (500 + int_of_string l) + 1), obj env c)]
+  | ["unlisten"; l] | ["drop_weak"; l] -> [OUnlisten (nat l)]
+  | ["{"] -> [OBegin]
+  | ["}"] -> [OEnd]
+  | ["tnew"; t] -> [OTNew (nat t)]
+  | ["tclose"; t] | ["tdrop"; t] -> [OTClose (nat t)]
+  | ["send"; h; v] ->
+    let i = sid env (int_of_string h) in
+    let i = if List.mem (i / 8) env.csinks && i mod 8 = 0 then i + 1 else i in
+    [OSend (nat_of_int i, parse_val v)]
+  | ["sample"; c] -> [OSample (obj env c)]
+  | ["sample_lazy"; z; c] -> [OSampleLazy (nat z, obj env c)]
+  | ["lazy_new"; z; v] -> [OLazyNew (nat z, parse_val v)]
+  | ["force"; z] -> [OForce (nat z)]
+  | ["clone_lazy"; z; z2] -> [OCloneLazy (nat z, nat z2)]
+  | "post" :: k :: cs -> [OPostK (nat k, List.map (obj env) cs)]
+  | ["clone"; h; h2] -> env.alias <- (int_of_string h2, sid env (int_of_string h)) :: List.remove_assoc (int_of_string h2) env.alias; [ONop]
+  | ["drop"; _] | ["gc"] | ["nodes"] | ["drop_l"; _] | ["drop_lazies"] -> [ONop]
+  | _ -> failwith ("bad frp op: " ^ line)
+
+let string_of_perr = function
+  | SampledBeforeLoop -> "panic SampledBeforeLoop"
+  | AlreadyLooped -> "panic AlreadyLooped"
+  | Illegal -> "illegal"
+
+(* canonical form of one line's observations: calls grouped per listener (order kept per listener) *)
+let canon (os : obs list) : string =
+  let calls = Hashtbl.create 7 and rest = ref [] in
+  List.iter (function
+      | BCall (l, v) ->
+        let l = int_of_nat l in
+        Hashtbl.replace calls l ((try Hashtbl.find calls l with Not_found -> []) @ [string_of_val v])
+      | BSample (h, v) -> rest := !rest @ [Printf.sprintf "sample %s" (string_of_val v)]
+      | BForced (z, v) -> rest := !rest @ [Printf.sprintf "forced %s" (string_of_val v)]
+      | BPost (k, vs) -> rest := !rest @ [Printf.sprintf "post %d [%s]" (int_of_nat k) (String.concat "," (List.map string_of_val vs))]
+      | BPanic e -> rest := !rest @ [string_of_perr e]) os;
+  let ls = List.sort compare (Hashtbl.fold (fun l vs acc -> (l, vs) :: acc) calls []) in
+  let parts = List.map (fun (l, vs) -> Printf.sprintf "L%d=[%s]" l (String.concat "," vs)) ls @ !rest in
+  if parts = [] then "-" else String.concat " ; " parts
+
+(* run a script under a choice prefix; returns output lines and the alternatives met *)
+let run_frp_once lines (prefix : int list) : string list * int list =
+  let env = { alias = []; csinks = [] } in
+  let st = ref init_state and out = ref [] and counts = ref [] and choices = ref prefix in
+  let stopped = ref false in
+  List.iter (fun line ->
+      if not !stopped then begin
+        let ops = ops_of_line env line in
+        let acc = ref [] in
+        (* the operations of one line share one transaction when none is open *)
+        let wrap = int_of_nat !st.depth = 0 && List.length ops > 1 in
+        let ops = if wrap then (OBegin :: ops) @ [OEnd] else ops in
+        (try
+           List.iter (fun o ->
+               match step (List.map nat_of_int !choices) !st o with
+               | EV ((st1, os), cs) ->
+                 st := st1; acc := !acc @ os;
+                 let k = List.length cs in
+                 counts := !counts @ List.map int_of_nat cs;
+                 let rec drop n l = if n = 0 then l else match l with [] -> [] | _ :: t -> drop (n - 1) t in
+                 choices := drop k !choices
+               | EErr e -> acc := !acc @ [BPanic e]; stopped := true; raise Exit) ops
+         with Exit -> ());
+        out := canon !acc :: !out
+      end) lines;
+  (List.rev !out, !counts)
+
+let run_frp_script oc (name, lines) =
+  let results = ref [] in
+  let rec explore prefix budget =
+    if budget > 0 then begin
+      let (out, counts) = run_frp_once lines prefix in
+      if not (List.mem out !results) then results := !results @ [out];
+      (* next prefix: increment the last position that still has an untried alternative *)
+      let n = List.length counts in
+      let p = Array.make n 0 in
+      List.iteri (fun i c -> if i < n then p.(i) <- c) prefix;
+      let ca = Array.of_list counts in
+      let i = ref (n - 1) in
+      while !i >= 0 && p.(!i) + 1 >= ca.(!i) do decr i done;
+      if !i >= 0 then begin
+        p.(!i) <- p.(!i) + 1;
+        explore (Array.to_list (Array.sub p 0 (!i + 1))) (budget - 1)
+      end
+    end in
+  explore [] 48;
+  List.iteri (fun k out ->
+      if k = 0 then Printf.fprintf oc "# %s\n" name else Printf.fprintf oc "# %s@%d\n" name k;
+      List.iter (fun l -> Printf.fprintf oc "%s\n" l) out;
+      Printf.fprintf oc "---\n") !results
+
 (* seeded random valid gc scripts (all choices from one PRNG state) *)
 let gc_rand seed count maxlen nmax emax hmax =
   Random.init seed;
@@ -246,6 +448,8 @@ let () =
     List.iter (run_eng_script false stdout) (read_scripts stdin)
   | _ :: "eng-run-orig" :: _ ->
     List.iter (run_eng_script true stdout) (read_scripts stdin)
+  | _ :: "frp-run" :: _ ->
+    List.iter (run_frp_script stdout) (read_scripts stdin)
   | _ :: "gc-run" :: _ ->
     List.iter (run_gc_script stdout) (read_scripts stdin)
   | _ :: "gc-enum" :: n :: e :: h :: d :: _ ->
